@@ -26,7 +26,8 @@ TECHNIQUE = ("fault enumeration in virtual time: ALL sequences of per-attempt ou
 RULE = ("virtual tier: case = retries 1..3 (4 in thorough) x timeout {0.5, 1, 2.5, 6} x one outcome per potential attempt from "
         "{reply at 0.4T, empty reply at 0.3T, nothing, reply at 1.5T, two replies at 0.2T/0.6T, ICMP error at 0.5T, connection lost at "
         "0.5T} (all sequences), called directly or through Client.get with configured timeout / retries; generated cases with retries 1..6 and event times at {0.001 .. 0.999, 1.001, 1.5, 3} x timeout; loopback tier: scripted "
-        "UDP responder and closed ports on 127.0.0.1; non-trivial = >= 2 attempts and at least one non-reply outcome; distinct = "
+        "UDP responder and closed ports on 127.0.0.1 and ::1; both tiers also vary the environment of the call (IPv4 / IPv6 endpoint, "
+        "DEBUG logging of puresnmp.transport on / off); non-trivial = >= 2 attempts and at least one non-reply outcome; distinct = "
         "the tuple itself")
 ASSUMPTIONS = [
     "model of asyncio's datagram transport: nothing is delivered after close()/abort(); connection_lost is scheduled by call_soon",
@@ -87,6 +88,15 @@ def acceptable(retries, T, kinds, reply, frs=None):
     return acc
 
 
+def _debug_logging(on):
+    """the transport logs every datagram at DEBUG level; what it does must not depend on whether anybody listens"""
+    import vrunner
+
+    cm = vrunner.logging_mode(on)
+    cm.__enter__()
+    return lambda: cm.__exit__(None, None, None)
+
+
 def run_virtual_case(case) -> Result:
     retries, T, kinds, via = case["retries"], case["timeout"], case["kinds"], case.get("via", "send_udp")
     frs = case.get("fr")
@@ -95,6 +105,12 @@ def run_virtual_case(case) -> Result:
         if sc.get("empty") and sc["kind"] == "reply":
             sc["kind"] = "empty"
     classes = ["tier=virtual", "via=" + via, "retries=%d" % retries] + (["generated_delays"] if frs else [])
+    host = "2001:db8::7" if case.get("family") == 6 else "192.0.2.7"
+    debug = bool(case.get("debug"))
+    if case.get("family") == 6:
+        classes.append("ipv6_endpoint")
+    if debug:
+        classes.append("debug_logging")
     attempts_model = 0
     for k in kinds:
         attempts_model += 1
@@ -111,17 +127,18 @@ def run_virtual_case(case) -> Result:
 
     async def call(loop):
         if via == "client":
-            client = vworld.Client("192.0.2.7", vworld.V2C("public"), port=1161)
+            client = vworld.Client(host, vworld.V2C("public"), port=1161)
             client.configure(timeout=T, retries=retries)
             return vworld.observe(await client.get(vworld.OID(OID)))
         if case.get("cancel_at") is not None:
             # the caller's own deadline: the call is cancelled from outside while an attempt is in flight
-            return await asyncio.wait_for(send_udp(Endpoint("192.0.2.7", 1161), REQUEST, timeout=T, retries=retries),
+            return await asyncio.wait_for(send_udp(Endpoint(host, 1161), REQUEST, timeout=T, retries=retries),
                                           case["cancel_at"])
-        return await send_udp(Endpoint("192.0.2.7", 1161), REQUEST, timeout=T, retries=retries)
+        return await send_udp(Endpoint(host, 1161), REQUEST, timeout=T, retries=retries)
 
     loop = L(scripts, reply)
     old = vworld._LOOP
+    restore_log = _debug_logging(debug)
     try:
         asyncio.set_event_loop(loop)
         try:
@@ -139,16 +156,19 @@ def run_virtual_case(case) -> Result:
         transports = loop.transports
         errors = list(loop.callback_errors)
     finally:
+        restore_log()
         try:
             loop.close()
         except Exception:  # noqa
             pass
         asyncio.set_event_loop(old if old is not None and not old.is_closed() else None)
-    head = "%s(retries=%d, timeout=%r) outcomes=%s" % (via, retries, T, kinds)
+    head = "%s(%s, retries=%d, timeout=%r%s) outcomes=%s" % (via, host, retries, T, ", DEBUG logging on" if debug else "", kinds)
 
     def bad(msg):
         return Result("%s: %s" % (head, msg), nontrivial, classes)
 
+    if errors:
+        return bad("exception in an event-loop callback: %s" % errors[0])
     if out[0] == "deadlock":
         return bad("the call can never complete: %s" % out[1])
     want_reply = REPLY if via != "client" else None
@@ -209,14 +229,14 @@ def run_virtual_case(case) -> Result:
             first = first or payload
             if payload != first:
                 return bad("a retransmission differs from the first transmission")
-        if tr.remote_addr is not None and tuple(tr.remote_addr) != ("192.0.2.7", 1161):
+        if tr.remote_addr is not None and tuple(tr.remote_addr) != (host, 1161):
             return bad("endpoint %d talks to %r" % (i, tr.remote_addr))
         if not tr.closed:
             return bad("the socket of attempt %d is still open after the call has %s and the loop has drained" % (
                 i, "returned" if out[0] == "ok" else "raised"))
     if errors:
         return bad("exception in an event-loop callback: %s" % errors[0])
-    return Result(None, nontrivial, classes, key=(retries, T, tuple(kinds), via, tuple(frs or ())))
+    return Result(None, nontrivial, classes, key=(retries, T, tuple(kinds), via, tuple(frs or ()), case.get("family"), debug))
 
 
 # --------------------------------------------------------------------------
@@ -264,6 +284,13 @@ def run_loopback_case(case) -> Result:
     retries, T, kinds = case["retries"], case["timeout"], case["kinds"]
     classes = ["tier=loopback", "retries=%d" % retries]
     refused = case.get("refused", False)
+    v6 = case.get("family") == 6
+    lo = "::1" if v6 else "127.0.0.1"
+    debug = bool(case.get("debug"))
+    if v6:
+        classes.append("ipv6_endpoint")
+    if debug:
+        classes.append("debug_logging")
     attempts_model = 0
     for k in kinds:
         attempts_model += 1
@@ -279,19 +306,19 @@ def run_loopback_case(case) -> Result:
             # a port nobody listens on: bind + close to find a free one
             import socket
 
-            s = socket.socket(socket.AF_INET, socket.SOCK_DGRAM)
-            s.bind(("127.0.0.1", 0))
+            s = socket.socket(socket.AF_INET6 if v6 else socket.AF_INET, socket.SOCK_DGRAM)
+            s.bind((lo, 0))
             port = s.getsockname()[1]
             s.close()
             resp = None
         else:
-            tr, resp = await loop.create_datagram_endpoint(lambda: _Responder(kinds, T), local_addr=("127.0.0.1", 0))
+            tr, resp = await loop.create_datagram_endpoint(lambda: _Responder(kinds, T), local_addr=(lo, 0))
             port = tr.get_extra_info("sockname")[1]
         await asyncio.sleep(0)
         base = _fds()
         t0 = time.monotonic()
         try:
-            val = await send_udp(Endpoint("127.0.0.1", port), REQUEST, timeout=T, retries=retries)
+            val = await send_udp(Endpoint(lo, port), REQUEST, timeout=T, retries=retries)
             out = ("ok", val)
         except Exception as e:  # noqa
             out = ("exc", e)
@@ -306,16 +333,24 @@ def run_loopback_case(case) -> Result:
             resp.transport.close()
         return out
 
+    restore_log = _debug_logging(debug)
+    errors = []
+    loop.set_exception_handler(lambda _l, ctx: errors.append("%s: %r" % (ctx.get("message"), ctx.get("exception"))))
     try:
         asyncio.set_event_loop(loop)
         out = loop.run_until_complete(go())
     finally:
+        restore_log()
         loop.close()
         asyncio.set_event_loop(old if old is not None and not old.is_closed() else None)
-    head = "loopback send_udp(retries=%d, timeout=%r) responder=%s" % (retries, T, "closed port" if refused else kinds)
+    head = "loopback send_udp(%s, retries=%d, timeout=%r%s) responder=%s" % (lo, retries, T, ", DEBUG logging on" if debug else "",
+                                                                             "closed port" if refused else kinds)
 
     def bad(msg):
         return Result("%s: %s" % (head, msg), nontrivial, classes)
+
+    if errors:
+        return bad("exception in an event-loop callback: %s" % errors[0])
 
     if info["leak"] > 0 or info["leak_later"] > 0:
         return bad("%d file descriptor(s) still open after the call has %s and control is back in the event loop" % (
@@ -368,18 +403,20 @@ def run_case(case) -> Result:
 
 
 class _Seqs:
-    def __init__(self, retries, timeouts, vias, k, m):
-        self.a = (retries, timeouts, vias, k, m)
+    def __init__(self, retries, timeouts, vias, k, m, env=((4, False),)):
+        self.a = (retries, timeouts, vias, k, m, env)
 
     def __iter__(self):
-        retries, timeouts, vias, k, m = self.a
+        retries, timeouts, vias, k, m, env = self.a
         n = 0
-        for via in vias:
-            for T in timeouts:
-                for kinds in itertools.product(KINDS, repeat=retries):
-                    n += 1
-                    if n % m == k:
-                        yield dict(tier="virtual", retries=retries, timeout=T, kinds=list(kinds), via=via)
+        for family, debug in env:
+            for via in vias:
+                for T in timeouts:
+                    for kinds in itertools.product(KINDS, repeat=retries):
+                        n += 1
+                        if n % m == k:
+                            yield dict(tier="virtual", retries=retries, timeout=T, kinds=list(kinds), via=via, family=family,
+                                       debug=debug)
 
 
 LOOPBACK_PLANS = [
@@ -397,6 +434,9 @@ class _Loop:
         plans, T, refused_n = self.a
         for r, kinds in plans:
             yield dict(tier="loopback", retries=r, timeout=T, kinds=kinds)
+        for family, debug in ((4, True), (6, False), (6, True)):
+            for r, kinds in plans[:3]:
+                yield dict(tier="loopback", retries=r, timeout=T, kinds=kinds, family=family, debug=debug)
         for r in range(1, refused_n + 1):
             yield dict(tier="loopback", retries=r, timeout=T, kinds=["none"] * r, refused=True)
 
@@ -407,7 +447,8 @@ def virtual_cases(draw):
     return dict(tier="virtual", retries=r, timeout=draw(st.sampled_from([0.5, 1, 2.5, 6, 0.05, 30, 7.25])),
                 kinds=draw(st.lists(st.sampled_from(KINDS), min_size=r, max_size=r)),
                 fr=draw(st.lists(st.sampled_from([0.001, 0.25, 0.5, 0.9, 0.999, 1.001, 1.5, 3.0]), min_size=r, max_size=r)),
-                via=draw(st.sampled_from(["send_udp", "send_udp", "client"])))
+                via=draw(st.sampled_from(["send_udp", "send_udp", "client"])),
+                family=draw(st.sampled_from([4, 4, 6])), debug=draw(st.sampled_from([False, False, True])))
 
 
 @st.composite
@@ -425,7 +466,8 @@ def loop_cases(draw):
     r = draw(st.integers(1, 3))
     return dict(tier="loopback", retries=r, timeout=draw(st.sampled_from([0.03, 0.05, 0.08])),
                 kinds=draw(st.lists(st.sampled_from(["reply", "none", "none", "late", "dup", "empty"]), min_size=r, max_size=r)),
-                refused=draw(st.integers(0, 5)) == 0)
+                refused=draw(st.integers(0, 5)) == 0,
+                family=draw(st.sampled_from([4, 4, 6])), debug=draw(st.sampled_from([False, False, True])))
 
 
 def units(tier, seed):
@@ -437,6 +479,11 @@ def units(tier, seed):
             us.append(Unit("virtual-r%d-%d" % (r, k), enumeration_unit,
                            cases=_Seqs(r, [0.5, 1, 2.5, 6], ["send_udp", "client"], k, shards),
                            label="virtual-r%d-%d" % (r, k), sample_every=199))
+    # the environment of the call: address family of the endpoint x DEBUG logging of the transport on / off
+    for r in (1, 2):
+        us.append(Unit("virtual-env-r%d" % r, enumeration_unit,
+                       cases=_Seqs(r, [1], ["send_udp", "client"], 0, 1, env=((4, True), (6, False), (6, True))),
+                       label="virtual-env-r%d" % r, sample_every=97))
     for sh in range(2 if tier == "quick" else 8):
         us.append(Unit("virtual-hyp-%d" % sh, hypothesis_unit, strategy=virtual_cases(), examples=300 if tier == "quick" else 5000,
                        seed=shard_seed(seed, 40 + sh), label="virtual-hyp-%d" % sh))
